@@ -199,6 +199,15 @@ func exhaustiveDocs(thorough bool) []exDoc {
 		exDoc{"{s @skip(if: true) sn @include(if: false) l}", need{"s": leafNeed, "sn": leafNeed, "l": leafNeed}},
 		exDoc{"{lo {s} lo {sn}}", need{"lo": sn}},
 		exDoc{"{u {... on O {o {sn}} ... on P {sn}}}", need{"u": need{"o": need{"sn": leafNeed}, "sn": leafNeed}}},
+		// ONE field node (o inside F) takes part in two DIFFERENT merged sub-selection lists of the
+		// same object type, the same length and the same first node: [__typename@F, s] and
+		// [__typename@F, sn].  A memo key of collectFields that does not contain every selection's
+		// position confuses the two.
+		exDoc{"{p: o {...F o {s}} q: o {...F o {sn}}} fragment F on O {o {__typename}}", need{"o": need{"o": sn}}},
+		exDoc{"{p: o {...F o {x: s}} q: o {...F o {x: sn}}} fragment F on O {o {a: s}}", need{"o": need{"o": sn}}},
+		exDoc{"{p: lo {...F o {sn s}} q: lo {...F o {s o {s}}}} fragment F on O {o {s}}",
+			need{"lo": need{"o": need{"s": leafNeed, "sn": leafNeed, "o": need{"s": leafNeed}}}}},
+		exDoc{"{p: on {o {s} ...F} q: on {o {s} o {sn} ...F} r: on {o {s} o {a: sn} ...F}} fragment F on O {o {b: s}}", need{"on": need{"o": sn}}},
 	)
 	return docs
 }
